@@ -511,15 +511,27 @@ def run(ck, F, tier):
                 stage = ("filter_map", tq.apply(d[2], [("tuple", [J, X])]), None)
             elif d[0] == "map" and d[1][0] == "filter" and d[1][1][0] == "enumerate" and d[1][1][1] == ("elems", var("self")):
                 stage = ("filter", tq.apply(d[1][2], [("tuple", [J, X])]), tq.apply(d[2], [("tuple", [J, X])]))
-            if stage is not None:
-                eqsel = True
+            # the minimum the elements are compared with: min_by over the whole list with the caller's comparator
+            mins = [e.args[0] for e in t.events if e.callee == "<try>" and "min_by" in repr(e.args[0])[:200]]
+            MINV = mins[0] if len(mins) == 1 else None
+            min_ok = False
+            if MINV is not None:
+                ma = single_atom(atom_args(single_atom(MINV))[0]) if single_atom(MINV) is not None and atom_fn(single_atom(MINV)) == "try" else None
+                if ma is not None and atom_fn(ma) == "std::iter::Iterator::min_by" and unkey(ma[2]) in (("iterdesc", ("elems", var("self"))), ("iterdesc", ("elems", ("P", var("self"))))):
+                    from ..idioms import as_closure
+                    cv = tq.apply(as_closure(F, t, ma[3]), [var("a"), var("b")])
+                    min_ok = cv == app("apply", var("compare"), var("a"), var("b"))
+            if stage is not None and min_ok:
+                want_cmp = single_atom(app("apply", var("compare"), X, MINV))
+                cmp_with_min = contains_atom(vkey(stage[1]) if not isinstance(stage[1], Poly) else stage[1], lambda a_: a_ == want_cmp)
+                eqsel = cmp_with_min
                 for outcome in ("Less", "Equal", "Greater"):
                     seen = []
                     r = sel_at(stage[1], outcome, seen)
                     kept = (r == ("Some", 7)) if stage[0] == "filter_map" else bool(r)
                     none = (r == "None") if stage[0] == "filter_map" else not bool(r)
                     # compared: the element against the minimum found before (min_by over the same list with the same comparator)
-                    cmp_ok = len(seen) == 1 and seen[0][0] == "<compare>" and seen[0][1] == "<x>" and "min_by" in str(seen[0][2]) and "elems" in str(seen[0][2])
+                    cmp_ok = len(seen) == 1 and seen[0][0] == "<compare>" and seen[0][1] == "<x>"
                     eqsel = eqsel and cmp_ok and (kept if outcome == "Equal" else none)
                 if stage[0] == "filter":
                     eqsel = eqsel and stage[2] == J
@@ -541,3 +553,45 @@ def run(ck, F, tier):
         pushes = calls_to(bb.value, r"std::collections::VecDeque::<T, A>::push_back")
         lifo = calls_to(bb.value, r"std::collections::VecDeque::<T, A>::(pop_back|push_front)")
         ck.inst("Q5", "bfs-fifo:" + fn, len(pops) == 1 and len(pushes) == 1 and not lifo, bb.span, "%s: queue discipline pop_front/push_back (%d/%d), no LIFO use" % (fn, len(pops), len(pushes)))
+    # local_girth (the bounded cycle search the girth constraint relies on), read at the revisit / first-visit decision and evaluated
+    # for distances d (already recorded for the reached node), path lengths pl (of the path arriving there) and bounds max in 0..4
+    from ..symx import NotEvaluable
+    lb = F.body("sparse::bfs::BFSContext::<'_>::local_girth")
+    tl = Tracer(F, r"std::collections::VecDeque::<T, A>::(pop_front|push_back)", mode="int")
+    envl = {}
+    for p_, nm_ in zip(lb.params, ("self", "max")):
+        tl.bind(p_, var(nm_), envl)
+    retl = tl.eval(lb.value, envl)
+    rets_l = [e for e in tl.events if e.callee == "<return>"]
+    pushes_l = [e for e in tl.events if e.callee.endswith("push_back")]
+    stores_l = [e for e in tl.events if e.callee == "<assign>"]
+
+    def lg_grid(d, pl, mx):
+        return Grid({"max": mx}, {".path_length": lambda *a_: pl, "get_node_mut": lambda *a_: ("Some", d) if d is not None else "None",
+                                  "pop_front": lambda *a_: ("Some", "HEAD"), ".node": lambda *a_: "NODE", "iter": lambda *a_: "NEXT", "elem": lambda *a_: "NH"})
+    okb = okp = oks = len(rets_l) == 1 and len(pushes_l) == 1 and len(stores_l) == 1 and retl == ("variant", "None")
+    whyb = ""
+    try:
+        if okb:
+            for d, pl, mx in product(range(4), range(1, 5), range(5)):
+                g = lg_grid(d, pl, mx)
+                fired = g.holds(rets_l[0].guards)
+                val = g.value(rets_l[0].args[0]) if fired else None
+                want = ("Some", d + pl) if d + pl <= mx else "None"
+                if not fired or val != want or g.holds(pushes_l[0].guards) or g.holds(stores_l[0].guards):
+                    okb, whyb = False, " ; at (recorded distance, path length, max) = %r the search returns %r, required %r" % ((d, pl, mx), val, want)
+                    break
+            for pl, mx in product(range(1, 5), range(5)):
+                g = lg_grid(None, pl, mx)
+                if g.holds(rets_l[0].guards):
+                    okb, whyb = False, " ; the search returns at a node that had no recorded distance"
+                stored = g.holds(stores_l[0].guards) and g.value(stores_l[0].args[1]) == ("Some", pl)
+                oks = oks and stored
+                if pl < mx and not g.holds(pushes_l[0].guards):
+                    okp = False
+    except (NotEvaluable, TypeError) as ex:
+        raise AnalysisError("local_girth: the effect list cannot be evaluated (%s)" % ex)
+    ck.inst("Q5", "local_girth:bounded-report", okb, rets_l[0].site if rets_l else lb.span,
+            "reaching a node that already has a distance d by a path of length pl ends the search with Some(d + pl) exactly when d + pl <= max, else None" + whyb)
+    ck.inst("Q5", "local_girth:record-distance", oks, stores_l[0].site if stores_l else lb.span, "a node reached for the first time gets the length of the path that reached it")
+    ck.inst("Q5", "local_girth:expand-below-bound", okp, pushes_l[0].site if pushes_l else lb.span, "every newly reached node whose path is shorter than max is queued for expansion")
